@@ -165,12 +165,33 @@ impl Property for C04 {
     }
     fn strategy(_tier: Tier) -> BoxedStrategy<Spec> {
         // RSA keys are what a JSON key document describes by text (PEM); give the mixed-key class more weight here
-        (prop_oneof![3 => spec_strategy(true, 4), 2 => spec_strategy(false, 3)], proptest::option::weighted(0.25, 0usize..4))
-            .prop_map(|(mut s, ja)| {
-                s.json_alias = ja;
-                s
-            })
-            .boxed()
+        let small = (prop_oneof![3 => spec_strategy(true, 4), 2 => spec_strategy(false, 3)], proptest::option::weighted(0.25, 0usize..4)).prop_map(|(mut s, ja)| {
+            s.json_alias = ja;
+            s
+        });
+        // cardinality tail: 33-80 authorised keys, many of them signing, one of them (at a generated position, often
+        // beyond the 64th) signing three times; threshold at or just above the number of distinct signers
+        let big = (prop_oneof![Just(33usize), Just(64), Just(65), Just(70), Just(80)], link_spec(false), any::<u16>(), proptest::collection::vec(any::<bool>(), 80), 0u32..3)
+            .prop_flat_map(|(n, content, pos, mask, dt)| {
+                crate::gen::world::many_keys(n).prop_map(move |keys| {
+                    let p = (pos as usize) % n;
+                    let mut entries: Vec<Entry> = (0..n).filter(|i| mask[*i] && *i != p).map(Entry::Valid).collect();
+                    entries.push(Entry::Valid(p));
+                    entries.push(Entry::Valid(p));
+                    entries.insert(0, Entry::Valid(p));
+                    let distinct = entries.iter().filter_map(|e| if let Entry::Valid(k) = e { Some(*k) } else { None }).collect::<std::collections::BTreeSet<_>>().len() as u32;
+                    Spec { content: content.clone(), keys, entries, authorized: (0..n).collect(), threshold: distinct + dt, perm: vec![], unknown_scheme: None, json_alias: None }
+                })
+            });
+        // and: a block co-signed by 33-199 further keys nobody authorised, each once; a single authorised key, threshold 1
+        let cosigned = (prop_oneof![Just(34usize), Just(40), Just(65), Just(70), Just(130), Just(200)], link_spec(false), any::<u16>(), proptest::collection::vec(any::<u8>(), 0..8))
+            .prop_flat_map(|(n, content, pos, perm)| {
+                crate::gen::world::many_keys(n).prop_map(move |keys| {
+                    let a = (pos as usize) % n;
+                    Spec { content: content.clone(), keys, entries: (0..n).map(Entry::Valid).collect(), authorized: vec![a], threshold: 1, perm: perm.clone(), unknown_scheme: None, json_alias: None }
+                })
+            });
+        prop_oneof![60 => small.boxed(), 1 => big.boxed(), 1 => cosigned.boxed()].boxed()
     }
     fn enumerate(_tier: Tier, worker: usize, workers: usize) -> Box<dyn Iterator<Item = Spec>> {
         let keys = vec![KeySpec::Ed { seed: 1, pkcs8: true }, KeySpec::Ed { seed: 2, pkcs8: false }];
